@@ -518,6 +518,12 @@ def check_reuse(case, out):
     all do this): every evaluation must give what a fresh parse gives for the same arguments"""
     fn, ver, argsets, coll = case['fn'], case['ver'], case['argsets'], case.get('coll')
     expr = expr_of(fn, len(argsets[0]), coll)
+    # arguments that are the same in every set may be written as literals (a cache keyed on "the literal arguments")
+    for i in case.get('literal', []):
+        a = argsets[0][i]
+        if all(x[i] == a for x in argsets) and a[0] == 's' and all(0x20 <= ord(c) < 0xd800 and c not in '{}\x7f\x85' for c in a[1]):
+            expr = expr.replace('$a%d' % i, "'" + a[1].replace("'", "''") + "'")
+            out.dim('reuse_literal_argument', i)
     out.dim('reuse_function', fn)
     fresh = [norm(run_engine(ver, expr, {'a%d' % i: decode(a) for i, a in enumerate(args)})) for args in argsets]
 
@@ -981,7 +987,10 @@ def g_reuse_case(r, fn):
         if args:
             args[i] = other['args'][i]
         sets.append(args)
-    return {'fn': fn, 'ver': base['ver'], 'coll': base.get('coll'), 'argsets': sets}
+    case = {'fn': fn, 'ver': base['ver'], 'coll': base.get('coll'), 'argsets': sets}
+    if r.random() < 0.6 and base['args']:
+        case['literal'] = sorted(r.sample(range(len(base['args'])), r.randint(1, len(base['args']))))
+    return case
 
 
 def run(h):
@@ -997,7 +1006,7 @@ def run(h):
     for _ in range(h.n(6000)):
         h.case('law', g_law_case(r))
     for fn in FO_FUNCTIONS:
-        for _ in range(h.n(12)):
+        for _ in range(h.n(40)):
             h.case('reuse', g_reuse_case(r, fn))
 
 
@@ -1009,8 +1018,10 @@ def floors(v):
     for fn in XP1_FUNCTIONS:
         if v.got('xp1_function', fn) < 100:
             reasons.append('fewer than 100 XPath 1.0 cases for %s' % fn)
-    if v.got('reuse_evaluations', 'later') < 300:
-        reasons.append('fewer than 300 later evaluations of a reused expression')
+    if v.got('reuse_evaluations', 'later') < 1000:
+        reasons.append('fewer than 1000 later evaluations of a reused expression')
+    if v.got('reuse_literal_argument') < 30:
+        reasons.append('fewer than 30 literal arguments in reused expressions')
     if v.got('oracle_comparisons', 'libxml2') < 2000:
         reasons.append('fewer than 2000 libxml2 comparisons')
     for c in ('half-even-floor', 'half-odd-floor', 'neg-half-odd-floor', 'INF', '-INF', 'NaN', 'fraction', 'integral'):
